@@ -35,6 +35,7 @@ type Scope struct {
 	// final values of the named locals of the function at the return (post-conditions)
 	Locals     map[string]Val
 	LocalsAddr map[string]bool
+	Ranged     map[int]Val // loop ordinal -> the slice a range loop iterates over
 }
 
 func (sc *Scope) with(st *State) *Scope {
@@ -146,7 +147,7 @@ func (ex *Exec) evalSpec(sc *Scope, e ast.Expr) Val {
 			if x.Obj == nil {
 				return ex.Zero(sc.St, x.V)
 			}
-			mc := sc.St.Mem[x.Obj].(MapContent)
+			mc := ex.mapContentOf(sc.St, x)
 			k := term(i)
 			return wrapTerm(x.V, smt.Ite(smt.Sel(mc.Dom, k), smt.Sel(mc.Val, k), zeroTerm(mustSort(x.V))))
 		case *Table:
@@ -464,7 +465,7 @@ func (ex *Exec) specCall(sc *Scope, e *ast.CallExpr) Val {
 		if m.Obj == nil {
 			return Bool{smt.False}
 		}
-		return Bool{smt.Sel(sc.St.Mem[m.Obj].(MapContent).Dom, term(arg(1)))}
+		return Bool{smt.Sel(ex.mapContentOf(sc.St, m).Dom, term(arg(1)))}
 	case "typeIs":
 		// checked structurally: the parameter was constructed with that dynamic type
 		v := arg(0)
@@ -683,6 +684,12 @@ func (ex *Exec) specCall(sc *Scope, e *ast.CallExpr) Val {
 			}
 		}
 		specErr(e, "at(%d, %s): no such loop variable in scope", n, name)
+	case "ranged":
+		n, _ := strconv.Atoi(e.Args[0].(*ast.BasicLit).Value)
+		if v, ok := sc.Ranged[n]; ok {
+			return v
+		}
+		specErr(e, "ranged(%d): no such range loop over a slice in scope", n)
 	case "iter":
 		n, _ := strconv.Atoi(e.Args[0].(*ast.BasicLit).Value)
 		if t, ok := sc.Iter[n]; ok {
